@@ -280,7 +280,9 @@ var stringClasses = []string{"alnum", "unicode", "space", "reserved", "plus", "a
 
 var forcedClass string // consumed by the next genString call
 
-func carriesStrings(c pcell) bool { return c.Shape == "string" || c.Shape == "arr:string" || c.Shape == "obj" }
+func carriesStrings(c pcell) bool {
+	return c.Shape == "string" || c.Shape == "arr:string" || c.Shape == "obj"
+}
 
 // valuesPerCell: string-bearing cells sweep the classes; the others take k values
 func valuesPerCell(c pcell, k int) int {
